@@ -83,7 +83,7 @@ def run(ck, fx, cg, tier):
             ck.ob("R16.onepush", key, False, where, "`&mut` to the heap vector escapes (unprovable)")
         else:
             ck.ob("R16.onepush", key, True, where, "read (%s)" % ctx["kind"], nontrivial=False)
-    ck.floor("R16.onepush", "uses of Heap.memory", n_mem, 4)
+    ck.floor("R16.onepush", "uses of Heap.memory", n_mem, 1)
     # struct literals of Heap (construction) — allowed only with an empty/handed-over vector in new()/From
     for b in fx.hir:
         if b["from_expansion"]:
@@ -215,7 +215,7 @@ def run(ck, fx, cg, tier):
                      or (b["path"] == set_log["path"] and ctx["kind"] == "assign"))
         ck.ob("R16.inert", "%s|log %s" % (b["path"], ctx["kind"]), in_logger, loc(n),
               "Heap.log used %s" % ("by the log writer" if in_logger else "outside the log writer (%s) — behaviour may depend on --heap-log" % ctx["kind"]))
-    ck.floor("R16.inert", "uses of Heap.log", n_log, 2)
+    ck.floor("R16.inert", "uses of Heap.log", n_log, 1)
     # callers of set_size / set_log: only evaluate_with_memory_config
     for role in ("heap.set_size", "heap.set_log"):
         b = fx.body(A.get(role))
